@@ -18,7 +18,8 @@ import collections
 import copy
 import json
 
-from typedpy import (Deserializer, Serializer, Structure, serialize, structure_to_schema, schema_to_struct_code,
+from typedpy import (Deserializer, Serializer, Structure, serialize, deserialize_structure, structure_to_schema,
+                     schema_to_struct_code,
                      Extend, Omit, Pick, Partial, AllFieldsRequired, FunctionCall, Constant)
 from typedpy.serialization.fast_serialization import create_serializer
 from typedpy.serialization.mappers import Deleted
@@ -423,6 +424,22 @@ def _make_nested_fast(ctx, top):
             pass
 
 
+def _mapper_arg(case, decl):
+    """the `mapper=` argument of the (de)serialization entry points in the form the case asks for: None, a dict,
+    or a list of chained mappers (an identity entry for the first field, so that the result is unchanged)"""
+    form = case.get("mapper")
+    if not form or form == "none":
+        return None
+    first = decl["fields"][0][0]
+    return {first: first} if form == "dict" else [{first: first}]
+
+
+def oracle_only(case):
+    """cases whose result the heap model does not describe (keys renamed by camel_case_convert): argument
+    snapshots and the poke oracle only"""
+    return bool(case.get("camel"))
+
+
 def situation(case):
     op = case["op"]
     if op == "convert":
@@ -485,6 +502,34 @@ def situation(case):
             return own, {"names": names}, lambda: cls_fp(cls) + "|" + cls_fp(new)
         return Situation([state, names], state, shape, call)
 
+    if op == "construct" and case.get("src"):
+        # the values come from ANOTHER INSTANCE (typed wrappers, not plain data): Cls(**values of src),
+        # shallow_clone_with_overrides, from_other_class, cast_to a subclass.  `mirror`: the caller then pokes the
+        # new instance and the source instance is the one that must not change.
+        src = cls(**_kw(case, ctx))
+        how, mirror = case["src"], bool(case.get("mirror"))
+        if how == "instance":
+            source = {k: getattr(src, k) for k in list(src.__dict__) if k not in dump.INTERNAL}
+        else:
+            source = src
+        sit = Situation([source], source, struct_shape(decl, source, "root"), None)
+
+        def call():
+            if how == "instance":
+                x = cls(**source)
+            elif how == "clone":
+                x = src.shallow_clone_with_overrides()
+            elif how == "from_other_class":
+                x = cls.from_other_class(src)
+            else:
+                x = src.cast_to(type(cls.__name__ + "Sub", (cls,), {}))
+            sit.shape = prune_extras(struct_shape(decl, source, "root"), x)
+            if mirror:
+                return x, x, lambda: inst_fp(src)
+            return x, source, lambda: inst_fp(x)
+        sit.call = call
+        return sit
+
     if op == "construct":
         kw = _kw(case, ctx)
         shape = struct_shape(decl, kw, "root")
@@ -499,10 +544,17 @@ def situation(case):
     if op == "deserialize":
         doc = dump.load_value(case["doc"], ctx)
         shape = struct_shape(decl, doc, "root") if isinstance(doc, dict) else "any"
-        sit = Situation([doc], doc, shape, None)
+        mapper = _mapper_arg(case, decl)
+        sit = Situation([doc, mapper], doc, shape, None)
 
         def call():
-            x = Deserializer(cls).deserialize(doc, keep_undefined=case.get("keepUndefined", True))
+            if case.get("via") == "function":
+                x = deserialize_structure(cls, doc, mapper=mapper, camel_case_convert=bool(case.get("camel")),
+                                          keep_undefined=bool(case.get("keepUndefined", True)))
+            elif mapper is not None:
+                x = Deserializer(cls, mapper=mapper).deserialize(doc, keep_undefined=case.get("keepUndefined", True))
+            else:
+                x = Deserializer(cls).deserialize(doc, keep_undefined=case.get("keepUndefined", True))
             if isinstance(doc, dict):
                 sit.shape = prune_extras(struct_shape(decl, doc, "root"), x)
             return x, doc, lambda: inst_fp(x)
@@ -516,11 +568,19 @@ def situation(case):
     fdecl = dict((n, f) for n, f in decl["fields"])
     if op == "setattr":
         name = case["field"]
-        value = dump.load_value(case["value"], ctx)
+        src = None
+        if case.get("fromInstance"):
+            # x.f = y.f: the value is the typed wrapper of another instance of the same class
+            src = cls(**_kw(case, ctx))
+            value = getattr(src, name)
+        else:
+            value = dump.load_value(case["value"], ctx)
         shape = shape_for(fdecl[name], value) if name in fdecl else "untyped"
 
         def call():
             setattr(x, name, value)
+            if src is not None and case.get("mirror"):
+                return x, x.__dict__.get(name), lambda: inst_fp(src)
             return x, value, lambda: inst_fp(x)
         return Situation([value], value, shape, call, top_kind="none")
 
@@ -528,10 +588,16 @@ def situation(case):
         shape = struct_shape(decl, x, "root")
         via = case.get("via", "Serializer")
 
+        mapper = _mapper_arg(case, decl)
+
         def call():
-            doc = Serializer(x).serialize() if via == "Serializer" else serialize(x, compact=(via == "compact"))
+            if mapper is not None or case.get("camel"):
+                doc = serialize(x, mapper=mapper, camel_case_convert=bool(case.get("camel"))) if via != "Serializer" \
+                    else Serializer(x, mapper=mapper).serialize()
+            else:
+                doc = Serializer(x).serialize() if via == "Serializer" else serialize(x, compact=(via == "compact"))
             return doc, doc, lambda: inst_fp(x)
-        return Situation([x], x, shape, call)
+        return Situation([x, mapper], x, shape, call)
 
     if op == "fastSerialize":
         shape = struct_shape(decl, x, "root", op=op)
@@ -629,7 +695,7 @@ def immutable_output(case):
 
 
 def line(case, impl):
-    if "cells" not in impl or immutable_output(case):
+    if "cells" not in impl or immutable_output(case) or oracle_only(case):
         return {"suite": "alias", "skip": True}
     return {"suite": "alias", "op": case["op"], "shape": impl["shape"], "cells": impl["cells"], "src": impl["src"],
             "topKind": impl.get("topKind", "root")}
@@ -652,7 +718,7 @@ def judge(case, impl, model):
     if not impl.get("args_same", True):
         fails.append((f"arg-mutated:{op}", f"{op} changed one of its arguments (deep snapshot differs); "
                       f"model argsSame={model.get('argsSame')}"))
-    if model.get("skip") and not immutable_output(case):
+    if model.get("skip") and not immutable_output(case) and not oracle_only(case):
         return None, fails
     if not model.get("skip") and model.get("argsSame") != impl.get("args_same"):
         msg = f"argument mutation: real args_same={impl.get('args_same')} model={model.get('argsSame')}"
@@ -803,6 +869,9 @@ def _gen_cases(rng, tier, n_classes):
             continue
         base = {"suite": "alias", "cls": cls}
         cases.append(dict(base, op="construct", kw=kw))
+        # values taken from another instance (typed wrappers as input), both poke directions
+        how = rng.choice(["instance", "clone", "from_other_class", "cast"])
+        cases.append(dict(base, op="construct", kw=kw, src=how, mirror=rng.random() < 0.5))
         if rng.random() < 0.4:
             bad = [[k, (vg.corrupt(v) if rng.random() < 0.7 else rng.choice(vg.confusion()))] for k, v in kw]
             cases.append(dict(base, op="construct", kw=bad, stream="corrupt"))
@@ -818,6 +887,8 @@ def _gen_cases(rng, tier, n_classes):
             v2 = vg.valid(fd[nm])
             if v2 is not gen.NOVALUE and fd[nm]["k"] not in SCALAR_KINDS:
                 cases.append(dict(base, op="setattr", kw=kw, field=nm, value=v2))
+            if fd[nm]["k"] not in SCALAR_KINDS and rng.random() < 0.5:
+                cases.append(dict(base, op="setattr", kw=kw, field=nm, fromInstance=True, mirror=rng.random() < 0.5))
         if fast or rng.random() < 0.3:
             cases.append(dict(base, op="fastSerialize", kw=kw))
         # document for deserialization: the serialized image of the instance (computed at run time is not
@@ -826,6 +897,14 @@ def _gen_cases(rng, tier, n_classes):
         doc = SD.dedupe_doc({"m": [[k, SD.to_doc(fd.get(k), v)] for k, v in kw]})
         cases.append(dict(base, op="deserialize", doc=doc))
         cases.append(dict(base, op="deserialize", doc=doc, keepUndefined=False))
+        # the mapper argument in each accepted form x camel_case_convert, class wrappers and function-level API
+        form, camel = rng.choice(["dict", "list", "none"]), rng.random() < 0.5
+        cases.append(dict(base, op="deserialize", doc=doc, via="function", mapper=form, camel=camel))
+        form, camel = rng.choice(["dict", "list", "none"]), rng.random() < 0.5
+        cases.append(dict(base, op="serialize", kw=kw, via="function", mapper=form, camel=camel))
+        if rng.random() < 0.3:
+            cases.append(dict(base, op="deserialize", doc=doc, mapper="dict"))
+            cases.append(dict(base, op="serialize", kw=kw, via="Serializer", mapper="dict"))
         # an undeclared key holding a container (kept as additional property or dropped, never edited)
         cases.append(dict(base, op="deserialize", doc={"m": doc["m"] + [["zz_extra", {"l": [{"l": [1]}]}]]},
                           keepUndefined=rng.choice([True, False]), stream="extra-key"))
@@ -989,6 +1068,32 @@ def directed_cases():
         out.append({"suite": "alias", "op": op, "cls": multi, "kw": kw})
     for how in ("Omit", "Pick", "Extend", "Partial", "AllFieldsRequired"):
         out.append({"suite": "alias", "op": "derive", "cls": multi, "how": how, "names": ["a", "b"]})
+    # typed wrappers of one instance given to another, every entry point, both poke directions; depth >= 2
+    nestd = _cls("Nested", [["rows", {"k": "seqOf", "item": ARR_INT}],
+                            ["cells", {"k": "seqOf", "item": {"k": "mapOf", "key": STR, "val": INT}}],
+                            ["m", {"k": "mapOf", "key": STR, "val": ARR_INT}],
+                            ["dq", {"k": "seqOf", "item": ARR_INT, "seq": "deque"}],
+                            ["t", {"k": "tuplePos", "items": [ARR_INT, INT]}], ["a", ARR_INT]])
+    nkw = [["rows", {"l": [{"l": [1, 2]}, {"l": [3]}]}], ["cells", {"l": [{"m": [["k", 1]]}]}], ["m", {"m": [["k", {"l": [1]}]]}],
+           ["dq", {"q": [{"l": [1]}]}], ["t", {"t": [{"l": [1]}, 2]}], ["a", {"l": [1, 2]}]]
+    for how in ("instance", "clone", "from_other_class", "cast"):
+        for mirror in (False, True):
+            out.append({"suite": "alias", "op": "construct", "cls": nestd, "kw": nkw, "src": how, "mirror": mirror})
+    for nm, _ in nkw:
+        for mirror in (False, True):
+            out.append({"suite": "alias", "op": "setattr", "cls": nestd, "kw": nkw, "field": nm, "fromInstance": True,
+                        "mirror": mirror})
+    # the mapper argument: None / dict / list of chained mappers x camel_case_convert, every entry point
+    ndoc2 = {"m": [["rows", {"l": [{"l": [1, 2]}]}], ["cells", {"l": [{"m": [["k", 1]]}]}], ["m", {"m": [["k", {"l": [1]}]]}],
+                   ["dq", {"l": [{"l": [1]}]}], ["t", {"l": [{"l": [1]}, 2]}], ["a", {"l": [1, 2]}]]}
+    for form in ("none", "dict", "list"):
+        for camel in (False, True):
+            out.append({"suite": "alias", "op": "deserialize", "cls": nestd, "doc": ndoc2, "via": "function",
+                        "mapper": form, "camel": camel})
+            out.append({"suite": "alias", "op": "serialize", "cls": nestd, "kw": nkw, "via": "function",
+                        "mapper": form, "camel": camel})
+    out.append({"suite": "alias", "op": "deserialize", "cls": nestd, "doc": ndoc2, "mapper": "dict"})
+    out.append({"suite": "alias", "op": "serialize", "cls": nestd, "kw": nkw, "via": "Serializer", "mapper": "dict"})
     # empty containers (an `if value:` style short cut would keep or hand out exactly these)
     emp = _cls("Emp", [["a", ARR_INT], ["u", {"k": "seqAny"}], ["q", {"k": "seqAny", "seq": "deque"}], ["m", {"k": "mapAny"}],
                        ["s", {"k": "setOf", "item": INT}], ["t", {"k": "mapOf", "key": STR, "val": INT}],
